@@ -6,6 +6,9 @@ The hash parameter is instantiated with the identity (`H l = l`), so "equal chec
 Lines (fragment id `a`|`b` is always the second token):
   open <f> <set|mutex|bool> <shard> <ranked|lru|none> <maxopn> <queue 0|1>   -> ok
   openfield <f> <mutex|bool>                                                   -> ok   (fragment of a real Field)
+  openholder <f> <mutex|bool> | openserver <f> <mutex|bool>                    -> ok   (field of a real Holder / of an in-process server: PQL + API.Import)
+  reopen <f>                                                                   -> ok   (close + open: fragment, field, holder or server restart)
+  fclearrow <f> r                                                              -> true|false  (ClearRow through the field's owner)
   setbit <f> r c | clearbit <f> r c | setrow <f> r c,c,.. | clearrow <f> r     -> true|false|err:mutex
   import <f> <clear 0|1> r:c,r:c,..                                            -> ok|err:mutex
   importvalue <f> <clear> <depth> c:v,c:v,..                                   -> ok
@@ -109,6 +112,7 @@ def parseOp : List String → Option Op
   | ["setvalue", c, d, v] => do pure (.setValue (← c.toNat?) (← d.toNat?) (← v.toInt?))
   | ["clearvalue", c, d, v] => do pure (.clearValue (← c.toNat?) (← d.toNat?) (← v.toInt?))
   | ["snapshot"] => some .snapshot
+  | ["reopen"] => some .reopen
   | ["invalidate"] => some .invalidateChecksums
   | ["row", r] => do pure (.row (← r.toNat?))
   | ["bit", r, c] => do pure (.bit (← r.toNat?) (← c.toNat?))
@@ -123,6 +127,7 @@ def parseOp : List String → Option Op
   | ["fset", r, c] => do pure (.setBit (← r.toNat?) (← c.toNat?))
   | ["fclear", r, c] => do pure (.clearBit (← r.toNat?) (← c.toNat?))
   | ["frow", r] => do pure (.row (← r.toNat?))
+  | ["fclearrow", r] => do pure (.clearRow (← r.toNat?))
   | _ => none
 
 /-- run one operation on a slot: model answer, spec answer. -/
@@ -158,7 +163,18 @@ def step (strict : Bool) (st : St) (ws : List String) : St × Ans :=
     | some _, some k, some mo =>
       (setSlot st f { opened := true, m := Frag.empty k (if mo = 0 then 10000 else mo), S := [] }, ans "ok")
     | _, _, _ => bad
-  | ["openfield", f, kind] =>
+  | [o, f, kind] =>
+    if !(o = "openfield" || o = "openholder" || o = "openserver") then
+      (match getSlot st f with
+       | none => bad
+       | some x =>
+         if !x.opened then (st, ans "err:closed") else
+         match parseOp [o, kind] with
+         | none => bad
+         | some op =>
+           let tag := if o = "setrow" then "setrow-changed-always-true" else o
+           let (x', a) := runOp x op tag
+           (setSlot st f x', a)) else
     match getSlot st f, parseKind kind with
     | some _, some k =>
       (setSlot st f { opened := true, field := true, m := Frag.empty k 10000, S := [] }, ans "ok")
@@ -168,7 +184,7 @@ def step (strict : Bool) (st : St) (ws : List String) : St × Ans :=
     | none => bad
     | some x =>
       if !x.opened then (st, ans "err:closed") else
-      if (op = "fset" || op = "fclear" || op = "frow" || op = "fimport") && !x.field then
+      if (op = "fset" || op = "fclear" || op = "frow" || op = "fimport" || op = "fclearrow") && !x.field then
         (st, ans "err:nofield") else
       if op = "mget" && x.m.kind = .set then (st, ans "err:novector") else
       match op, rest with
